@@ -24,9 +24,10 @@ for seed in sorted(rows):
         pass
     rnd = meta.get('round', 1)
     mb = meta.get('detection', {}).get('missed_before_strengthening', False)
+    mbs = 'unknown' if mb is None else ('yes' if mb else 'no')
     sig = rest.replace('|', '\\|')[:110]
     by = chk if res == 'CAUGHT' else ('— (%s)' % res.lower())
-    print('| %s | %s | %s | `%s` | %s |' % (seed, rnd, by, sig, 'yes' if mb else 'no'))
+    print('| %s | %s | %s | `%s` | %s |' % (seed, rnd, by, sig, mbs))
 caught = sum(1 for r in rows.values() if r[1] == 'CAUGHT')
 print()
 print('%d of %d seeded changes caught.' % (caught, len(rows)))
